@@ -420,7 +420,7 @@ def check_c10(tier, seed, log=print):
     text_tie_search(run, 'C10')
     run.coverage['ignore_group_model'] = ignore_group_tie(run)
     import defgen
-    run.coverage['structured_definitions'] = defgen.tie(run, seed + 100, 120 if tier == 'quick' else 2000, refmatch=refmatch)
+    run.coverage['structured_definitions'] = defgen.tie(run, seed + 100, 300 if tier == 'quick' else 3000, refmatch=refmatch)
     run.coverage.update(dict(evaluations=n + tc, distinct_nontrivial=eq, equivalences_proved=eq, undecided=unknown, literal_hirs_checked=lit_ok,
                              regex_crate_comparisons=tc,
                              rule='tokens (str and byte-string literals over metacharacters, cased non-ASCII, arbitrary bytes), regexes and skips, with and without ignore(case), each paired in one enum with an independently written reference form '
@@ -439,7 +439,7 @@ def check_c11(tier, seed, log=print):
     run.coverage['text_pipeline_predicted'] = TP.tie(cases, caps, P.run_lean)
     text_tie_search(run, 'C11')
     import defgen
-    run.coverage['structured_definitions'] = defgen.tie(run, seed + 200, 120 if tier == 'quick' else 2000, refmatch=refmatch)
+    run.coverage['structured_definitions'] = defgen.tie(run, seed + 200, 300 if tier == 'quick' else 3000, refmatch=refmatch)
     run.coverage.update(dict(evaluations=n, distinct_nontrivial=eq, equivalences_proved=eq, undecided=unknown,
                              rule='definitions with 1-3 subpatterns (alternations, inline flags, nested references, byte-string subpatterns), referenced at the start, middle and end of a pattern; '
                                   'each paired with the pattern obtained by independent inlining as (?u:src) / (?-u:src); equivalence decided for all strings by equivB; undefined names must be rejected; non-trivial = equivalence established',
@@ -574,7 +574,7 @@ def check_c18(tier, seed, log=print):
             samples.append(dict(group=[cases[j]['src'].split('\n')[-3:] for j in idxs[:3]]))
     run.coverage['text_pipeline_predicted'] = TP.tie(cases, caps, P.run_lean)
     import defgen
-    run.coverage['structured_definitions'] = defgen.tie(run, seed, 150 if tier == 'quick' else 2500, refmatch=refmatch)
+    run.coverage['structured_definitions'] = defgen.tie(run, seed, 400 if tier == 'quick' else 4000, refmatch=refmatch)
     run.coverage.update(dict(evaluations=n, distinct_nontrivial=len(nontriv), permutation_groups=len(groups),
                              rule='all permutations (with and without trailing comma, with and without a positional callback) of every subset of the named arguments, for #[token], #[regex] and skip(...); '
                                   'dependency-respecting permutations of #[logos(...)] items; every permutation must give the verdict, diagnostics, leaves and generated code of the first one; '
